@@ -5,6 +5,7 @@ import random
 import string
 
 from ..sim import srv as sim
+from .pumpfam import PumpFamily
 from .srvfam import ConnFamily
 
 ID = "C08"
@@ -235,7 +236,7 @@ class Lines(ConnFamily):
                 b = bytes(rng.choice(b"gemini:/[]@#?;=%.ab0 \t\r\n\x00\xff\xc3\xa9") for _ in range(rng.randint(0, 40)))
                 if rng.random() < 0.5:
                     b = b"gemini://" + b
-            crlf = rng.random() < 0.93
+            crlf = rng.random() < (0.88 if r < 0.4 else 0.93)
             content = b""
             if b.startswith(b"titan") and rng.random() < 0.7:
                 content = b"abc"
@@ -253,8 +254,10 @@ class Lines(ConnFamily):
                 parts.append(stream[p:c])
                 p = c
             yield {"mw": rng.random() < 0.4, "up": up, "handler": ["s", [20, "text/gemini", ["s", "ok"]]],
-                   "evs": [["d", x.hex()] for x in parts if x] + [["ma"], ["ua", [20, "text/gemini", None]]],
-                   "line": b.hex(), "crlf": crlf, "comps": comps, "titan": titan_ok, "content": content.hex()}
+                   "evs": [["d", x.hex()] for x in parts if x] + ([["l"]] if not crlf and rng.random() < 0.8 else []) + [["ma"], ["ua", [20, "text/gemini", None]]],
+                   "line": b.hex(), "crlf": crlf, "comps": comps, "titan": titan_ok, "content": content.hex(),
+                   # an unterminated line followed by the peer's clean end of stream (eof_received, then connection_lost) or an abrupt loss
+                   "eof": rng.random() < 0.7}
 
     def oracle(self, case, obs):
         data = b"".join(bytes.fromhex(e[1]) for e in case["evs"] if e[0] == "d")
@@ -314,4 +317,56 @@ class Lines(ConnFamily):
         return f"{'grammar' if case.get('comps') else 'other'}|{cls}|{raw[:2].decode('latin1')}|h{obs['h']}u{obs['u']}m{obs['m']}"
 
 
-FAMILIES = [Lines()]
+class PumpLines(PumpFamily):
+    """the same request lines through the PyOpenSSL front end (TLSServerProtocol): the line is written by the peer as one
+    or several TLS records which arrive in one or several network reads; a grammar-valid line reaches the handler exactly
+    once whatever the record / read structure, a must-reject line never does"""
+
+    name = "pumplines"
+    quick_n = 160
+    thorough_n = 4000
+
+    def gen(self, rng: random.Random, n: int):
+        for i in range(n):
+            comps = None
+            if rng.random() < 0.6:
+                line, comps = grammar_line(rng, rng.choice([None, None, 1021, 1022]) if rng.random() < 0.2 else None)
+                b = line.encode()
+                if len(b) > 1022:
+                    comps = None
+            else:
+                b = corrupt(rng, grammar_line(rng)[0])
+            if b"\r\n" in b:
+                comps = None
+            stream = b + b"\r\n"
+            k = rng.choice([0, 1, 1, 2, 3])
+            cuts = sorted(set(rng.sample(range(1, len(stream)), min(len(stream) - 1, k)))) if len(stream) > 1 else []
+            if rng.random() < 0.4 and len(stream) > 2:
+                cuts = sorted(set(cuts + [len(stream) - 2]))          # the CRLF in a record of its own
+            app, p0 = [], 0
+            for c in cuts + [len(stream)]:
+                app.append(stream[p0:c])
+                p0 = c
+            yield {"up": rng.random() < 0.4, "mw": False, "handler": ["s", [20, "text/gemini", ["s", "ok"]]], "app": [a.hex() for a in app if a],
+                   "close_notify": rng.random() < 0.2, "plaintext": None, "cutseed": rng.randrange(1 << 30), "maxcuts": rng.choice([0, 0, 0, 1, 3]),
+                   "stall": None, "cert": rng.choice([None, None, 0]), "post": [["ua", [20, "text/gemini", None]]], "line": b.hex(), "comps": comps}
+
+    def oracle(self, case, obs):
+        line = bytes.fromhex(case["line"])
+        i = line.find(b"\r\n")
+        if i >= 0:
+            line = line[:i]
+        calls = obs["h"] + obs["u"] + obs["m"]
+        plain = bytes.fromhex(obs["plain"]) if obs["plain"] != "-" else b""
+        why = must_reject(line, case["up"])
+        if why is not None:
+            if calls:
+                return ("mustreject-reached", f"PyOpenSSL backend: a must-reject line ({why}) reached handler/middleware: {line[:80]!r}")
+            return None
+        if case.get("comps") is not None and obs["h"] != 1:
+            return ("valid-refused", f"PyOpenSSL backend: a line of the protocol grammar, sent as {len(case['app'])} TLS record(s) arriving in at most "
+                                     f"{case['maxcuts'] + 1} read(s), did not reach the handler (h={obs['h']}): {line[:100]!r} -> {plain[:60]!r}")
+        return self.oracle_once(case, obs)
+
+
+FAMILIES = [Lines(), PumpLines()]
